@@ -37,6 +37,8 @@ ID = "C09"
 LEVEL = "model_checking"
 
 _CTX = None
+# far above the needs of the unchanged tree (quick < 6k, thorough < 30k states per configuration); see c08.py
+MAX_STATES = dict(quick=40000, thorough=150000)
 _DEBUG = bool(os.environ.get("VERIF_DEBUG"))
 
 
@@ -191,7 +193,7 @@ def r_configs(tier):
 
 def r_explore(col, cfg):
     ops = M.alphabet(cfg)
-    stats = dict(id=("R", repr(sorted(cfg.items()))))
+    stats = dict(id=("R", repr(sorted(cfg.items()))), max_states=MAX_STATES[_CTX.tier if _CTX else "thorough"])
     hits = [0]
 
     def judge(p, op):
@@ -249,6 +251,12 @@ def set_img_size(img, s):
         img.size = L.image.Size.FIT           # dynamic: follows the terminal size
 
 
+# `frame` / `size_hash` / `n_frames` are dead or constant at every suspension point of the generator
+_I_LOCALS = {"self", "img", "alpha", "fmt", "style_args", "image", "cached", "repeat", "cache", "sent", "n", "frame",
+             "n_frames", "size_hash"}
+_I_ATTRS = {"_image", "_repeat", "_format", "_cached", "_loop_no", "_animator", "_img", "_img_is_source"}
+
+
 class ISide:
     def __init__(self, cfg, cached):
         L = world.load()
@@ -297,9 +305,13 @@ class ISide:
             return ("dead",) + base
         loc = fr.f_locals
         cache = loc.get("cache")
-        csig = None if cache is None else tuple((None if e[0] is None else h64(e[0]), e[1]) for e in cache)
+        csig = None if cache is None else tuple(
+            (None if e[0] is None else h64(e[0]), e[1]) + tuple(M.generic(x) for x in e[2:]) for e in cache)
+        # anything a changed implementation adds (new locals / attributes) is captured generically
+        extra = [(k, M.generic(v)) for k, v in loc.items() if k not in _I_LOCALS]
+        extra += [(k, M.generic(v)) for k, v in it.__dict__.items() if k not in _I_ATTRS]
         return ("open", base, fr.f_lasti < 0, fr.f_lineno, loc.get("n"), loc.get("repeat"), loc.get("sent"),
-                loc.get("cached"), csig)
+                loc.get("cached"), csig, tuple(sorted(extra)))
 
 
 class IPair:
@@ -403,7 +415,7 @@ def i_configs(tier):
 
 def i_explore(col, cfg):
     ops = i_ops(cfg["alpha"], cfg.get("frames", NFRAMES))
-    stats = dict(id=("I", repr(sorted(cfg.items()))))
+    stats = dict(id=("I", repr(sorted(cfg.items()))), max_states=MAX_STATES[_CTX.tier if _CTX else "thorough"])
     saved = [0]
 
     def judge(p, op):
@@ -430,6 +442,8 @@ def _shard(items):
             col.violation(dict(part=part, clause="exception", where="exploration", exc=type(e).__name__),
                           f"{type(e).__name__}: {e} while exploring {cfg}", dict(part=part, cfg=cfg, history=[], op=["next"]))
             continue
+        if stats.get("capped"):
+            col.notes.add(f"state cap {stats['max_states']} hit: {part} {cfg}")
         col.inc("states", stats["states"])
         col.inc("transitions", stats["transitions"])
         col.inc(f"states_part_{part}", stats["states"])
@@ -452,6 +466,9 @@ def run(ctx):
     for col in explore.pmap(_shard, items, chunks_per_proc=len(items)):
         ctx.merge(col)
     world.uninstall()
+    for note in sorted(ctx.notes):
+        if note.startswith("state cap"):
+            ctx.cap(note)
     ctx.rule = ("distinct = distinct reachable pair states (cached iterator, uncached iterator, epoch bookkeeping / "
                 "image size / terminal) per configuration; every transition (one more operation after a full replay "
                 "of the history on two fresh real iterators) is one evaluation")
